@@ -135,6 +135,23 @@ def run(ctx, tier):
                 ctx.violation("result-depends-on-numpy-print-options:" + _name(fn).split(".")[-1], function=_name(fn), args=repr(a)[:300],
                               default_options=repr(_norm(base))[:300], other_options=repr(_norm(alt))[:300], monitor="replay", case=None)
     ctx.hit("replay_under_other_print_options", na)
+    # phase 1g: a host program that turns floating-point anomalies into exceptions (np.seterr(all="raise")) and runtime
+    # warnings into errors: a value the decoder discards must not be computed from an invalid operation on the way
+    ne = 0
+    if np is not None:
+        import warnings
+        for i in order[:2000]:
+            fn, a, k, want = rec[i]
+            base = probe.call(fn, *_copy(a), **_copy(k))
+            with np.errstate(all="raise"), warnings.catch_warnings():
+                warnings.simplefilter("error", RuntimeWarning)
+                alt = probe.call(fn, *_copy(a), **_copy(k))
+            ne += 1
+            ctx.ev(2)
+            if repr(_norm(alt)) != repr(_norm(base)):
+                ctx.violation("result-depends-on-numpy-error-state:" + _name(fn).split(".")[-1], function=_name(fn), args=repr(a)[:300],
+                              default_state=repr(_norm(base))[:300], errors_raised=repr(_norm(alt))[:300], monitor="replay", case=None)
+    ctx.hit("replay_with_fp_errors_raised", ne)
     # phase 1c: each call preceded by a few calls taken from the workloads of ALL properties (another decoder's early
     # return or exception path may leave a module-level setting behind)
     cpath = os.environ.get("PMV_CORPUS")
